@@ -74,7 +74,7 @@ def obligations(tier):
     obs.append(Ob(name='c10_brngCTR', harness='harness/C10/brng_ctr.c', instances=inst, replay='asan', srcs=BR, stub_files=['stubs/belt_block_uf_e.c'], stubs=['belt_block_uf_e'],
                   unwind=60, unwind_rules=[(r'^(belt|brng)\w+Step\w*\.\d+$', 4), (r'^brngBlockInc\.0$', 5), (r'^vp_relocate\.\d$', 300)], timeout=600, mem_gb=16, cbmc_extra=X,
                   funcs=['brngCTRStart', 'brngCTRStepR'], bound='request lengths %s x every split point (quick: 2 fragments) = %d length tuples, key/iv symbolic, output buffers zero-filled, state relocated at every boundary' % (list(lens), len(inst))))
-    inst2 = [('h_%d_%d_%d' % (n, a, iv), '%d, %d, 0, %d' % (n, a, iv)) for n in ((1, 20) if q else (0, 1, 31, 32, 33, 40)) for a in ((0, 1) if q else range(0, n + 1, 1 if n < 8 else 8)) for iv in ((16, 72) if q else (0, 16, 64, 65, 72))]
+    inst2 = [('h_%d_%d_%d' % (n, a, iv), '%d, %d, 0, %d' % (n, a, iv)) for n in ((1,) if q else (0, 1, 31, 32, 33, 40)) for a in ((0, 1) if q else range(0, n + 1, 1 if n < 8 else 8)) for iv in ((16, 72) if q else (0, 16, 64, 65, 72))]
     obs.append(Ob(name='c10_brngHMAC', harness='harness/C10/brng_hmac.c', instances=inst2, replay='asan', srcs=BR, stub_files=['stubs/belt_block_uf_e.c'], stubs=['belt_block_uf_e'],
                   unwind=90, unwind_rules=[(r'^(belt|brng)\w+Step\w*\.\d+$', 5), (r'^vp_relocate\.\d$', 300)], timeout=900, mem_gb=16, cbmc_extra=X,
                   funcs=['brngHMACStart', 'brngHMACStepR'], bound='%d (request length, split point, iv length) tuples incl. iv_len 72 > 64 (state keeps a pointer to the caller iv), state relocated at every boundary' % len(inst2)))
